@@ -543,6 +543,7 @@ void funcbody(struct func *, struct scope *);
 struct gotolabel {
 	struct block *label;
 	bool defined;
+	struct location loc;  /* where the label was first used or defined */
 };
 
 struct switchcases {
